@@ -137,8 +137,9 @@ void c13_curve(vf::Tape & t, vf::Ctx & ctx)
   ctx.require("dt()", bs.dt() == dt && bs.ctrl_pts().size() == P.size());
   // end values outside the range
   const G gmin = bs(bs.t_min()), gmax = bs(bs.t_max());
-  ctx.require("value before t_min == value at t_min", coeffs_of(bs(bs.t_min() - t.lrange(1e-9, 1e3) * dt)) == coeffs_of(gmin));
-  ctx.require("value after t_max == value at t_max", coeffs_of(bs(bs.t_max() + t.lrange(1e-9, 1e3) * dt)) == coeffs_of(gmax));
+  // (not bitwise: at t_max the window coordinate may come out as u = 1 - O(eps |t| / dt) instead of the clamped u = 1)
+  ctx.le("value before t_min == value at t_min", rel(mat_of(bs(bs.t_min() - t.lrange(1e-9, 1e3) * dt)), mat_of(gmin)), 1e-9);
+  ctx.le("value after t_max == value at t_max", rel(mat_of(bs(bs.t_max() + t.lrange(1e-9, 1e3) * dt)), mat_of(gmax)), 1e-9);
   ctx.le("value at t_min is the start of the first window", rel(mat_of(gmin), ref_eval<K, G>(P, t0, dt, t0).X), 1e-9);
   ctx.le("value at t_max is the end of the last window", rel(mat_of(gmax), ref_eval<K, G>(P, t0, dt, bs.t_max()).X), 1e-9);
 
@@ -168,7 +169,11 @@ void c13_curve(vf::Tape & t, vf::Ctx & ctx)
       const G yl = bs(tl, vl, al), yr = bs(tr, vr, ar);
       const auto R = ref_eval<K, G>(P, t0, dt, tk);
       const double delta = tr - tl;
-      const double mv = static_cast<double>(maxabs<LD>(MatL(R.vel))), ma = static_cast<double>(maxabs<LD>(MatL(R.acc))), mj = static_cast<double>(maxabs<LD>(MatL(R.jer)));
+      // magnitudes of the next derivatives on BOTH sides of the knot (the first discontinuous derivative differs)
+      const auto Rl = ref_eval<K, G>(P, t0, dt, tk - 0.25 * dt);
+      const double mv = std::max({static_cast<double>(maxabs<LD>(MatL(R.vel))), static_cast<double>(maxabs<LD>(MatL(Rl.vel))), static_cast<double>(vl.cwiseAbs().maxCoeff()), static_cast<double>(vr.cwiseAbs().maxCoeff())});
+      const double ma = std::max({static_cast<double>(maxabs<LD>(MatL(R.acc))), static_cast<double>(maxabs<LD>(MatL(Rl.acc))), static_cast<double>(al.cwiseAbs().maxCoeff()), static_cast<double>(ar.cwiseAbs().maxCoeff())});
+      const double mj = std::max(static_cast<double>(maxabs<LD>(MatL(R.jer))), static_cast<double>(maxabs<LD>(MatL(Rl.jer))));
       const double sX = static_cast<double>(std::max<LD>(1, maxabs<LD>(R.X)));
       // outputs of order <= K-1 agree from both sides: 64 eps * scale + |next derivative| * (tr - tl) (x4 for safety)
       ctx.le("knot: value continuous", static_cast<double>(maxabs<LD>(MatL(mat_of(yl) - mat_of(yr)))), 64 * eps * sX + 4 * sX * mv * delta + 1e-300);
@@ -241,8 +246,9 @@ void c13_constant(vf::Tape & t, vf::Ctx & ctx)
   T vel, acc;
   const G y = bs(tt, vel, acc);
   ctx.le("constant curve: value", rel(mat_of(y), mat_of(g)), 1e-14);
-  ctx.require("constant curve: zero velocity", vel.isZero(0), show(vel));
-  ctx.require("constant curve: zero acceleration", acc.isZero(0), show(acc));
+  // zero up to the rounding of g^-1 g (a quaternion a few ulp off unit norm gives differences of O(eps))
+  ctx.le("constant curve: zero velocity", vel.size() ? static_cast<double>(vel.cwiseAbs().maxCoeff()) : 0.0, 1e-12 / dt);
+  ctx.le("constant curve: zero acceleration", acc.size() ? static_cast<double>(acc.cwiseAbs().maxCoeff()) : 0.0, 1e-12 / (dt * dt));
 }
 
 template<int K, class G>
